@@ -29,6 +29,28 @@ CLAIMED = {
              'library between obtaining and releasing a C object. Fixed on this tree: F4 (_process_error leaked the error).',
         technique='symbolic walk of resolved wrapper bodies incl. template instantiations; compile witness; ownership typestate',
     ),
+    'C19': dict(
+        category='other',
+        text='The parsed Java sources (javac tree API, tools/JavaFacts.java) and the resolved C sources are compared pair by pair for '
+             'the 141 function/method pairs of the same name that are translations of each other (private helpers, *_catch adaptors, '
+             'strategy objects with bound method references, the Crystal_Struct methods behind the static wrappers, C static helpers '
+             'and constant function tables resolved first): equal multisets of named physics constants (a name may match its value; '
+             'derived constants expanded), of xraylib and libm callees, of numeric literals other than 0 and 1, of record fields '
+             '(multiset in the record classes, set elsewhere), equal sets of data tables (tables with identical contents in the '
+             'shipped data count as one), equal tests on looked-up results (v <= 0 against v == 0), and for the public pairs equal '
+             'sets of transitive range guards on the parameters (conditions under which the function or a callee whose failure '
+             'propagates reports an error, mapped through call sites; flat Java indices and the 1-based C spline tables '
+             'canonicalised). The byte layout of the table file is decided exactly: the 105 (type, count, table, loops, conditions) '
+             'items written by java/pr_data_java.c (print helpers inlined, macros expanded, counts folded) equal, in order, the items '
+             'read by Xraylib.XRayInit with its read helpers and the record constructors inlined. The derivations copied into the '
+             'data writer (Auger yields/rates) combine the same terms as the originals in src/pr_data.c.',
+        design_ref='DESIGN.md section 2, C19',
+        note='Necessary conditions only: numerical equality to round-off and the exact coincidence of error conditions on every '
+             'input are run-time facts and are not decided. 15 pairs are independent implementations (formula parser, catalogue '
+             'containers) and are not compared; 20 translation idioms are frozen with reasons in rules/c19.py. Fixed on this tree: '
+             'F17 (PL3_full_cascade_kissel), F24 (AugerYield sign test).',
+        technique='cross-checking sibling implementations: fingerprints over resolved trees, transitive guard sets, stream-schema equality',
+    ),
     'C20': dict(
         category='proof',
         text='Exhaustive static comparison: every constant (~9 600 binding/name pairs) and every foreign prototype '
